@@ -232,6 +232,10 @@ def val_len(tok):
 
 # ---------------------------------------------------------------- running engines
 
+import threading
+_SCRATCH_LOCK = threading.Lock()
+
+
 class Scratch:
     """per-run scratch directory (removed on exit); never under /tmp for registered commands."""
 
@@ -241,8 +245,10 @@ class Scratch:
         self.n = 0
 
     def fresh(self):
-        self.n += 1
-        d = os.path.join(self.dir, "w%d" % self.n)
+        with _SCRATCH_LOCK:
+            self.n += 1
+            n = self.n
+        d = os.path.join(self.dir, "w%d" % n)
         os.makedirs(d)
         return d
 
@@ -318,13 +324,13 @@ def run_model(ops, timeout=300):
 
 
 def parallel_map(fn, items, workers=None):
-    """fork-based parallel map (each item handled in a child process; results are JSON-able)."""
+    """thread-based parallel map (the work is in child processes)."""
     import concurrent.futures as cf
     workers = workers or min(16, os.cpu_count() or 4)
     if workers <= 1 or len(items) <= 1:
         return [fn(x) for x in items]
-    with cf.ProcessPoolExecutor(max_workers=workers) as ex:
-        return list(ex.map(fn, items, chunksize=1))
+    with cf.ThreadPoolExecutor(max_workers=workers) as ex:
+        return list(ex.map(fn, items))
 
 
 # ---------------------------------------------------------------- known findings
